@@ -17,7 +17,7 @@ FUNCTIONS = [
     "batchie.fast_mvn.sample_mvn_from_precision (under LAPACK contracts)",
 ]
 BOUNDS = {
-    "quick": "2 samples, 2 treatments (+control), embedding size 1, n_obs<=2: every data structure (which sample, which treatment in which position, control in either or both positions, samples/treatments without data) enumerated by the solver; every parameter, hyper-parameter and observation symbolic; MVN contract for dimension<=2; one configuration in which a sampler step is taken between the first and the second observation",
+    "quick": "2 samples, 2 treatments (+control), embedding size 1, n_obs<=2: every data structure (which sample, which treatment in which position, control in either or both positions, samples/treatments without data) enumerated by the solver; every parameter, hyper-parameter and observation symbolic; MVN contract for dimension<=2; one configuration in which a sampler step is taken between the first and the second observation; a whole mcmc_step from an arbitrary state with one observation: fitted values at the entry of the first block",
     "thorough": "2 samples, 3 treatments, embedding sizes 1 and 2, n_obs<=2 (all structures) and n_obs=3 on a sampled set of structures; MVN contract for dimension<=3",
 }
 ASSUMPTIONS = [
